@@ -24,8 +24,6 @@ PROP = "C09"
 KINDS = ["bonds", "angles", "constraints", "dihedrals", "pairs"]
 SECTION = {"bonds": "bondtypes", "angles": "angletypes", "constraints": "constrainttypes", "dihedrals": "dihedraltypes",
            "pairs": "pairtypes"}
-SIG_PAIRS = "pairs-not-typed"
-SIG_TBL = "define-in-type-table"
 RTOL = 1e-9
 NOTYPE_MSG = "corresponding bonded type"
 
@@ -263,9 +261,9 @@ def check_bonded_case(case, wd, layout):
     exp = norm_result(case["exp"])
     if same_result(obs, exp):
         return None
-    for alt in case["alt"]:
+    for alt in case["alt"]:   # diagnostic hint only: names a repaired defect whose old behaviour this is; still a violation
         if same_result(obs, norm_result(alt["res"])):
-            return ("known deviation %s: %s" % (alt["sig"], first_diff(obs, exp)), alt["sig"], {"observed": obs})
+            return ("%s [the behaviour of the repaired defect %s]" % (first_diff(obs, exp), alt["sig"]), None, {"observed": obs})
     return (first_diff(obs, exp), None, {"observed": obs})
 
 
@@ -334,7 +332,7 @@ def replay_cases(ck, cases, tag):
         ck.evaluations += n
         for i, (what, sig, detail) in bad:
             nbad += 1
-            ck.violation({"kind": "S->I " + tag, "case": cases[i], "layout": i % 2, "detail": detail}, sig=sig,
+            ck.violation({"kind": "S->I " + tag, "case": cases[i], "layout": i % 2, "detail": detail},
                          what="%s case %d: %s" % (tag, i, what))
     ck.replayed += len(cases)
     for cs in cases:
@@ -630,15 +628,6 @@ EMPTY_NB = {"atypes": [], "expl": [], "gen": False, "comb": 2}
 EMPTY_NBOBS = {"pre": [], "post": [], "conv": []}
 
 
-def trace_cfg(known, wd):
-    s = (c.SPEC / "TR_trace.cfg").read_text()
-    s = s.replace("KnownPairs = FALSE", "KnownPairs = %s" % ("TRUE" if SIG_PAIRS in known else "FALSE"))
-    s = s.replace("KnownTbl = FALSE", "KnownTbl = %s" % ("TRUE" if SIG_TBL in known else "FALSE"))
-    f = Path(wd) / "TR_trace_run.cfg"
-    f.write_text(s)
-    return f
-
-
 def validate_batches(ck, batches, expect_reject=False, accepted=None):
     """batch validation by TypeResolveTrace, the batches concurrently.  batches: list of (name, records).
     Records whose run raised are violations right away.  Returns {name: (rejected tids, verdicts)}."""
@@ -662,7 +651,7 @@ def validate_batches(ck, batches, expect_reject=False, accepted=None):
                         "nbobs": nbobs if nbobs is not None else EMPTY_NBOBS})
         f = wd / "records.json"
         f.write_text(json.dumps(doc))
-        jobs.append((name, ("TypeResolveTrace", trace_cfg(ck._known, wd), {"workers": 1, "env": {"TRACE_FILE": str(f)}, "check": False, "timeout": 1500})))
+        jobs.append((name, ("TypeResolveTrace", "TR_trace.cfg", {"workers": 1, "env": {"TRACE_FILE": str(f)}, "check": False, "timeout": 1500})))
     out = {name: (set(), {}) for name, _ in batches}
     for (name, _), res in zip(jobs, c.tlc_many([j for _, j in jobs]) if jobs else []):
         good = goods[name]
@@ -688,9 +677,6 @@ def validate_batches(ck, batches, expect_reject=False, accepted=None):
             if b == "skip" or n == "skip":
                 nskip += 1
                 continue
-            if b != "ok":
-                for sig in b.split("+"):
-                    ck.violation({"kind": "I->S record", "record": r, "verdict": [b, n]}, sig=sig, what="known deviation " + sig)
             ck.traces += 1
             if accepted is not None and b == "ok" and n == "ok":
                 accepted.append(r)
@@ -743,8 +729,8 @@ SENS = [("TypeResolveExport", "TR_dev_onedir.cfg", "Conforms", "F4 (repaired): p
         ("TypeResolveExport", "TR_dev_firstinst.cfg", "Conforms", "expanded terms only in the first instance"),
         ("TypeResolveExport", "TR_dev_specorder.cfg", "LookupAgrees", "pattern list not ordered by specificity"),
         ("TypeResolveExport", "TR_dev_definefirst.cfg", "Conforms", "macros substituted in the first interaction only"),
-        ("TypeResolveExport", "TR_dev_pairs.cfg", "Conforms", "pairs never looked up in pairtypes (proposed finding)"),
-        ("TypeResolveExport", "TR_dev_tblmacro.cfg", "Conforms", "macros in type-table entries kept (proposed finding)"),
+        ("TypeResolveExport", "TR_dev_pairs.cfg", "Conforms", "F20 (repaired): pairs never looked up in pairtypes"),
+        ("TypeResolveExport", "TR_dev_tblmacro.cfg", "Conforms", "F19 (repaired): macros in type-table entries kept"),
         ("TypeResolveNBExport", "TR_nb_dev_override.cfg", "NConforms", "generated pairs overwrite nonbond_params"),
         ("TypeResolveNBExport", "TR_nb_dev_eps.cfg", "NConforms", "eps = C6^2/(2 C12)"),
         ("TypeResolveNBExport", "TR_nb_dev_sigma.cfg", "NConforms", "sigma^6 = C6/C12"),
@@ -851,10 +837,10 @@ def replay(path):
         tag = case["kind"].split()[1]
         r = (check_nb_case if tag == "nb" else check_bonded_case)(case["case"], wd, case.get("layout", 0))
         print("topology written to %s" % (wd / "topol.top"))
-        if r and r[1] is None:
+        if r:
             print("replayed: still differs: %s" % r[0])
             return 1
-        print("replayed: %s" % ("known deviation " + r[1] if r else "matches now"))
+        print("replayed: matches now")
         return 0
     rec = case["record"]
     if "exception" in rec:
